@@ -236,6 +236,22 @@ theorem take_append_short (a r : Str) (n : Nat) (h : a.length ≤ n) :
     (a ++ r).take n = a ++ r.take (n - a.length) := by
   rw [List.take_append, List.take_of_length_le h]
 
+/-- `<!DOCTYPE`, a non-empty run of white space, `HTML`, then anything is a doctype -/
+theorem isHTMLDoctype_ws (ws r : Str) (hne : ws ≠ []) (hws : ∀ c ∈ ws, isMagicWS c = true) :
+    isHTMLDoctype (sDoctype ++ (ws ++ (sHtmlName ++ r))) = true := by
+  unfold isHTMLDoctype
+  have h1 : sDoctype.isPrefixOf (sDoctype ++ (ws ++ (sHtmlName ++ r))) = true :=
+    isPrefixOf_append_self _ _
+  have h2 : (sDoctype ++ (ws ++ (sHtmlName ++ r))).drop sDoctype.length = ws ++ (sHtmlName ++ r) :=
+    List.drop_left
+  have h3 : (ws ++ (sHtmlName ++ r)).dropWhile isMagicWS = sHtmlName ++ r := by
+    have e : sHtmlName ++ r = 72 :: ([84, 77, 76] ++ r) := rfl
+    rw [e]; exact dropWhile_ws ws _ hws 72 (by decide)
+  have h4 : (sHtmlName ++ r).length < (ws ++ (sHtmlName ++ r)).length := by
+    have : 0 < ws.length := List.length_pos_iff.mpr hne
+    simp only [List.length_append]; omega
+  simp only [h1, h2, h3, isPrefixOf_append_self, h4, decide_true, Bool.and_self]
+
 /-- white space, then `<!DOCTYPE html` in any letter case, then anything -/
 theorem detectHTMLMagic_doctype (ws d rest : Str) (hws : ∀ c ∈ ws, isMagicWS c = true)
     (hd : upper d = sDoctypeHtml) : detectHTMLMagic (ws ++ d ++ rest) = true := by
@@ -254,7 +270,9 @@ theorem detectHTMLMagic_doctype (ws d rest : Str) (hws : ∀ c ∈ ws, isMagicWS
     have hu : upper (c :: (t ++ rest)) = sDoctypeHtml ++ upper rest := by
       have : c :: (t ++ rest) = (c :: t) ++ rest := by simp
       rw [this]; unfold upper at hd ⊢; rw [List.map_append, hd]
-    simp only [hu, isPrefixOf_append_self, List.isEmpty_cons, Bool.false_eq_true, if_false, if_true]
+    have hd' : isHTMLDoctype (sDoctypeHtml ++ upper rest) = true :=
+      isHTMLDoctype_ws [32] (upper rest) (by simp) (by decide)
+    simp only [hu, hd', List.isEmpty_cons, Bool.false_eq_true, if_false, if_true]
 
 /-- the first byte of `ws ++ d ++ …` when `d` starts like `<!DOCTYPE HTML` is neither `%` nor `P` -/
 theorem not_pdf_zip_prefix (ws d r : Str) (hws : ∀ c ∈ ws, isMagicWS c = true)
@@ -274,6 +292,65 @@ theorem not_pdf_zip_prefix (ws d r : Str) (hws : ∀ c ∈ ws, isMagicWS c = tru
       exact ⟨isPrefixOf_head_ne _ _ _ _ (by decide), isPrefixOf_head_ne _ _ _ _ (by decide)⟩
   | cons w ws =>
     have hw := isMagicWS_ne w (hws w (by simp))
+    exact ⟨isPrefixOf_head_ne _ _ _ _ (fun h => hw.2.1 h.symm), isPrefixOf_head_ne _ _ _ _ (fun h => hw.2.2 h.symm)⟩
+
+/-- white space is not changed by upper-casing -/
+theorem upperB_ws (c : Nat) (h : isMagicWS c = true) : upperB c = c := by
+  unfold isMagicWS at h
+  simp at h
+  unfold upperB
+  split <;> omega
+
+theorem upper_ws (ws : Str) (hws : ∀ c ∈ ws, isMagicWS c = true) : upper ws = ws := by
+  induction ws with
+  | nil => rfl
+  | cons w ws ih =>
+    show upperB w :: upper ws = w :: ws
+    rw [upperB_ws w (hws w (by simp)), ih (fun x hx => hws x (by simp [hx]))]
+
+theorem head_of_upper_doctype (c : Nat) (t : Str) (hd : upper (c :: t) = sDoctype) : c = 60 := by
+  have : upperB c = 60 := by
+    have := congrArg List.head? hd
+    simpa [upper, sDoctype] using this
+  exact upperB_eq_lt c this
+
+/-- white space, `<!DOCTYPE` in any letter case, a non-empty run of white space
+(blanks, tabs, line breaks, form feeds), `html` in any letter case, then anything -/
+theorem detectHTMLMagic_doctype_ws (lead d ws n rest : Str) (hl : ∀ c ∈ lead, isMagicWS c = true)
+    (hd : upper d = sDoctype) (hne : ws ≠ []) (hws : ∀ c ∈ ws, isMagicWS c = true)
+    (hn : upper n = sHtmlName) :
+    detectHTMLMagic (lead ++ (d ++ (ws ++ (n ++ rest)))) = true := by
+  cases d with
+  | nil => simp [upper, sDoctype] at hd
+  | cons c t =>
+    have hc : c = 60 := head_of_upper_doctype c t hd
+    have hcw : isMagicWS c = false := by rw [hc]; decide
+    unfold detectHTMLMagic
+    have e : (lead ++ ((c :: t) ++ (ws ++ (n ++ rest)))) = lead ++ c :: (t ++ (ws ++ (n ++ rest))) := by simp
+    rw [e, dropWhile_ws lead _ hl c hcw]
+    have hu : upper (c :: (t ++ (ws ++ (n ++ rest)))) = sDoctype ++ (ws ++ (sHtmlName ++ upper rest)) := by
+      have : c :: (t ++ (ws ++ (n ++ rest))) = (c :: t) ++ (ws ++ (n ++ rest)) := by simp
+      rw [this]
+      have hw := upper_ws ws hws
+      unfold upper at hd hn hw ⊢
+      rw [List.map_append, List.map_append, List.map_append, hd, hn, hw]
+    have hd' := isHTMLDoctype_ws ws (upper rest) hne hws
+    simp only [hu, hd', List.isEmpty_cons, Bool.false_eq_true, if_false, if_true]
+
+/-- the first byte of `lead ++ d ++ …` when `d` starts like `<!DOCTYPE` is neither `%` nor `P` -/
+theorem not_pdf_zip_prefix_doctype (lead d r : Str) (hl : ∀ c ∈ lead, isMagicWS c = true)
+    (hd : upper d = sDoctype) :
+    sPdfMagic.isPrefixOf (lead ++ (d ++ r)) = false ∧ sZipMagic.isPrefixOf (lead ++ (d ++ r)) = false := by
+  cases lead with
+  | nil =>
+    cases d with
+    | nil => simp [upper, sDoctype] at hd
+    | cons c t =>
+      have hc : c = 60 := head_of_upper_doctype c t hd
+      subst hc
+      exact ⟨isPrefixOf_head_ne _ _ _ _ (by decide), isPrefixOf_head_ne _ _ _ _ (by decide)⟩
+  | cons w ws =>
+    have hw := isMagicWS_ne w (hl w (by simp))
     exact ⟨isPrefixOf_head_ne _ _ _ _ (fun h => hw.2.1 h.symm), isPrefixOf_head_ne _ _ _ _ (fun h => hw.2.2 h.symm)⟩
 
 end Tabula.Detect
